@@ -53,6 +53,35 @@ theorem bounded_drain {W : Nat} (hW : 1 ≤ W) {s : State} (h : Reachable W s) :
       (ls.filter (fun l => l ≠ .cancel)).length + measure W s' ≤ measure W s) :=
   M6_abc hW h
 
+/-- states reached by continuing a run are reachable -/
+theorem reachable_run {W : Nat} {s s' : State} (h : Reachable W s) (ls : List Label)
+    (hr : run W s ls = some s') : Reachable W s' := by
+  obtain ⟨l0, h0⟩ := h
+  exact ⟨l0 ++ ls, by rw [run_append, h0]; exact hr⟩
+
+/-- **termination, put together**: from any reachable state with the flag set (a nonce was found or the
+watcher saw the cancellation) or with the join passed, EVERY continuation — whatever the scheduler does —
+consists of at most `5W + 9` steps of the call's own threads, and a continuation that cannot be extended
+by any such step has ended in `Mine` having returned. So under any scheduler that keeps running enabled
+goroutines, `Mine` returns after a bounded number of steps; no fairness between particular goroutines is
+needed in this phase. -/
+theorem terminates_once_draining {W : Nat} (hW : 1 ≤ W) {s : State} (h : Reachable W s)
+    (hd : s.done = true ∨ pastWait s.main = true) (ls : List Label) (s' : State)
+    (hr : run W s ls = some s') :
+    (ls.filter (fun l => l ≠ .cancel)).length ≤ 5 * W + 9 ∧
+    ((∀ l s'', l ≠ .cancel → step W s' l ≠ some s'') → ∃ r, s'.main = .returned r) := by
+  obtain ⟨_, _, hb, hrun⟩ := M6_abc hW h
+  constructor
+  · have := hrun hd ls s' hr
+    omega
+  · intro hstuck
+    have hreach := reachable_run h ls hr
+    apply Classical.byContradiction
+    intro hne
+    have hnr : ∀ r, s'.main ≠ .returned r := fun r hr' => hne ⟨r, hr'⟩
+    obtain ⟨l, s'', hl, hs⟩ := M4 hW hreach hnr
+    exact hstuck l s'' hl hs
+
 /-- **cancellation is honoured**: in every reachable state with the context cancelled, the flag not yet
 set and `Mine` not returned, the watcher's next step towards setting the flag is enabled (or the watcher
 is about to be started, or the call is already past the join and about to return). -/
